@@ -2,6 +2,7 @@ pub mod evidence;
 pub mod kf;
 pub mod node;
 pub mod rng;
+pub mod sched;
 pub mod session;
 
 use std::sync::atomic::{AtomicUsize, Ordering};
